@@ -13,7 +13,7 @@ CONSTANTS MaxDepth,   \* nesting of scopes
           MaxSteps,   \* actions per path
           MaxPend,    \* to-be-closed variables per scope
           Kinds,      \* scope kinds allowed: subset of {"do","loop","forin","fn","pcall","xpcall","co"}
-          Handlers,   \* handler kinds allowed: subset of {"ok","raise","raisetbc","nil","false","nometa"}
+          Handlers,   \* handler kinds allowed: subset of {"ok","raise","raisetbc","nil","false","nometa","lost"}
           ErrKinds,   \* error values: subset of {"str","tbl","pos","pos2","num","nilv","rt"}
           XHandlers,  \* message-handler kinds of xpcall scopes: subset of {"val","none"}
           Battery,    \* TRUE: after every caught error the program runs a fixed consistency battery (C11)
@@ -45,11 +45,13 @@ RECURSIVE RunPend(_, _, _)
 RunPend(pend, e, evs) ==
   IF pend = <<>> THEN [evs |-> evs, e |-> e]
   ELSE LET v == Last(pend)
-           e2 == IF v.h \in {"raise", "raisetbc"} THEN "R" \o ToString(v.id) ELSE e
+           (* "lost": the value had a __close metamethod when it was declared and has none any more: no handler can be
+              called, which counts as an error raised by the handler (some string) - the remaining values are still closed *)
+           e2 == IF v.h \in {"raise", "raisetbc"} THEN "R" \o ToString(v.id) ELSE IF v.h = "lost" THEN "STR" ELSE e
            (* a "raisetbc" handler declares a to-be-closed variable of its own (id + 100) before raising:
               that variable is closed, with the error the handler raised, when the handler is left *)
            own == IF v.h = "raisetbc" THEN << <<"tbc", v.id + 100, e2>> >> ELSE <<>>
-       IN RunPend(ButLast(pend), e2, Append(evs, <<"tbc", v.id, e>>) \o own)
+       IN RunPend(ButLast(pend), e2, (IF v.h = "lost" THEN evs ELSE Append(evs, <<"tbc", v.id, e>>)) \o own)
 
 (* Unwind scopes.  mode "norm": leave `cnt` more scopes; "fn": leave up to and
    including the nearest function-like scope, returning rv; "err": propagate error e.
